@@ -576,14 +576,16 @@ def plan_c17(pid, tier, seed, ncpu):
 
     m = 1 if tier == "quick" else 10
     return dict(variants=["dbg"], jobs=jobs,
-                floors={"builder_combinations": 12288, "boundary_durations_above_limit": 1000, "initial_capacity_differential_pairs": 10000 * m, "unbounded_retention_runs": 4,
+                floors={"builder_combinations": 12288, "boundary_durations_above_limit": 1000, "initial_capacity_differential_pairs": 10000 * m, "scaled_capacity_pairs": 2500 * m, "unbounded_retention_runs": 4,
                         "no_weigher_unit_weight_runs": 10, "new_vs_builder_runs": 4, "setter_call_orders_used": 120},
                 rule="exhaustive over the builder lattice: both kinds x max_capacity {absent,0,1,2^32-1,2^32,u64::MAX} x initial_capacity {absent,0,1,1000} x weigher {absent,present} "
                      "x time_to_live, time_to_idle {absent,0,1ns,1000y-1ns,1000y,1000y+1ns,1000y+1s,Duration::MAX} x build / build_with_hasher, the five setters called in a different one of their 120 orders for each combination: policy() echoes the inputs, build panics "
                      "iff a duration exceeds 1000 years (message checked); unbounded caches retain 10^4 inserts of arbitrary weights; without a weigher exactly max_capacity never-read "
                      "entries are admitted and weighted_size == entry_count; new(n) vs builder().max_capacity(n).build(); and sampled differential histories (deterministic hasher, "
                      "profiles admission/lru/general/capacity) between a configuration and the same one with initial_capacity in {0,1,2,3,5,8,16,100,1000}, comparing every op result, "
-                     "the physical entries, the recency order, the counters and the popularity table. Non-trivial: a differential pair; distinct by pair seed. The lattice part is exhaustive.",
+                     "the physical entries, the recency order, the counters and the popularity table; and sampled scaled pairs: a cache of max_capacity c*f+r above u32::MAX (c even in 4..16, f about 2^30, r in {0,1}) whose weigher "
+                     "reports multiples of f against a cache of max_capacity c with the multiples themselves, same history (insert / get / contains_key / invalidate / sync), comparing every lookup, "
+                     "the held keys, entry_count and weighted_size / f. Non-trivial: a differential pair; distinct by pair seed. The lattice part is exhaustive.",
                 assumptions=COMMON_ASSUMPTIONS + ["huge initial capacities are excluded (an allocation failure aborts the process and is not a property of the cache)"],
                 watchdog_s=scale(tier, 600, 3600))
 
